@@ -29,6 +29,17 @@ GROUPS = [
          harness='harness/c11_apply.c', roots=['gdstk::Reference::apply_repetition'], entry='h_ref_apply_repetition', enforce=None,
          kind='bounded', bound='a reference whose repetition is a lattice with zero columns (denotes no vector): no copies, no memory error',
          defines={'VF_EMPTY_REPETITION': 1, 'VF_REALLOC_MOVES': 1}, unwind=5, timeout=1200, tier='quick'),
+] + [
+    dict(name=nm, tu=tu, spec_headers=['spec/apply_rep_spec.h'], models=['models/alloc_models.h', 'models/apply_rep_models.h'],
+         harness='harness/c11_apply.c', roots=[root], entry=entry, enforce=None, kind='bounded', bound=bound,
+         defines=dict({'VF_REALLOC_MOVES': 1}, **defs), unwind=5, timeout=1200, tier='quick', uf_fp=True)
+    for nm, tu, root, entry, defs, bound in [
+        ('label_apply_repetition', 'src/label.cpp', 'gdstk::Label::apply_repetition', 'h_label_apply_repetition', {}, 'a label whose repetition denotes 1..3 offsets (arbitrary values, the first one zero)'),
+        ('label_apply_repetition_empty', 'src/label.cpp', 'gdstk::Label::apply_repetition', 'h_label_apply_repetition', {'VF_EMPTY_REPETITION': 1}, 'a label whose repetition is a lattice with zero columns'),
+        # poly_apply_repetition (non-empty): one assertion fails under CBMC with a counterexample that passes natively
+        # (suspected: CBMC's memcpy model on the vertex copy); unexplained, NOT claimed.
+        ('poly_apply_repetition_empty', 'src/polygon.cpp', 'gdstk::Polygon::apply_repetition', 'h_poly_apply_repetition', {'VF_EMPTY_REPETITION': 1}, 'a polygon whose repetition is a lattice with zero columns'),
+    ]
 ]
 TRUSTED_BASE = ['clang 14 AST', 'tools/cxx2c.py lowering', 'cbmc 6.11.0 (dfcc + SAT)', 'side-car contracts']
 ASSUMPTIONS = ['double multiplication/addition in the lattice corner formulas are uninterpreted (same expression of the same inputs); comparisons are IEEE, bit-precise',
